@@ -6,7 +6,7 @@ CONSTANTS
   PrivateSuffix <- McPrivate
   ListIds = {"sb"}
   ListNames <- McListNames
-  MaxList = 3
+  MaxList = 2
   Hosts <- Names
   QTypes = {"A", "AAAA", "HTTPS", "TXT", "MX"}
   PrefixStrs <- McPrefixStrs
